@@ -266,12 +266,66 @@ package gonum
 //@ writes x[start(n,incX)+k*incX] for k in 0..n
 //@ reads ap[k] for k in 0..n*(n+1)/2
 
-//@ func Implementation.Dsymv Implementation.Ssymv props: C01(frame) C07(safety)
+//@ func Implementation.Ssymv props: C01(frame) C07(safety)
 //@ valid flagUL(ul) && n >= 0 && lda >= max(1, n) && incX != 0 && incY != 0 &&
 //@       (n == 0 || (ge(a, n, n, lda) && vec(x, n, incX) && vec(y, n, incY)))
 //@ panics iff !valid, before-writes
 //@ writes y[start(n,incY)+k*incY] for k in 0..n
 //@ reads a[i*lda+j] for i in 0..n, j in 0..n if (ul == blas.Upper && j >= i) || (ul == blas.Lower && j <= i) ; x[start(n,incX)+k*incX] for k in 0..n
+
+// symu, syml: the part of alpha*(A*x)[r] that the rows 0..m-1 of the referenced triangle of the symmetric matrix A
+// contribute (row-major a, unit stride x; exact arithmetic, [real] clauses). Upper triangle (symu): row k < r holds
+// A(r,k) = a[k*lda+r], which is multiplied by x[k]; row r holds A(r,j) = a[r*lda+j] for j >= r (the diagonal term plus
+// f64.dotp over the n-r-1 elements behind it); rows below r hold nothing of row r. Lower triangle (syml): row r holds
+// A(r,j) = a[r*lda+j] for j <= r; row k > r holds A(r,k) = a[k*lda+r]. For m = n both are alpha * sum over j of A(r,j)*x[j].
+//@ spec rec symu(a []float64, x []float64, alpha float64, r int, m int, n int, lda int) float64 decreases m =
+//@      ite(m <= 0, 0, symu(a, x, alpha, r, m-1, n, lda) + ite(m-1 < r, (alpha*x[m-1])*a[(m-1)*lda+r], ite(m-1 == r, alpha*(x[r]*a[r*lda+r] + f64.dotp(x, a, n-r-1, r+1, 1, r*lda+r+1, 1)), 0)))
+//@ spec rec syml(a []float64, x []float64, alpha float64, r int, m int, lda int) float64 decreases m =
+//@      ite(m <= 0, 0, syml(a, x, alpha, r, m-1, lda) + ite(m-1 > r, (alpha*x[m-1])*a[(m-1)*lda+r], ite(m-1 == r, alpha*(f64.dotp(x, a, r, 0, 1, r*lda, 1) + x[r]*a[r*lda+r]), 0)))
+
+// Dsymv: in exact arithmetic y[i] = beta*y[i] + alpha * sum over j of A(i,j)*x[j], where only the referenced
+// triangle of the symmetric matrix is addressed (symu, syml above, taken over all n rows). alpha == 0 gives beta*y.
+// Operands in distinct allocations, unit increments. The upper triangle is decided on every run, the lower triangle in
+// the thorough tier ([realx]; both together take 25 to 40 s depending on the load of the machine).
+//@ func Implementation.Dsymv props: C01 C07(safety)
+//@ valid flagUL(ul) && n >= 0 && lda >= max(1, n) && incX != 0 && incY != 0 &&
+//@       (n == 0 || (ge(a, n, n, lda) && vec(x, n, incX) && vec(y, n, incY)))
+//@ panics iff !valid, before-writes
+//@ writes y[start(n,incY)+k*incY] for k in 0..n
+//@ reads a[i*lda+j] for i in 0..n, j in 0..n if (ul == blas.Upper && j >= i) || (ul == blas.Lower && j <= i) ; x[start(n,incX)+k*incX] for k in 0..n
+//@ let G = y.rid != x.rid && y.rid != a.rid && incY == 1
+// (the scaling by beta is stated per case of beta: the solvers do not split on the value of a real by themselves)
+//@ ensures [real] alpha == 0 && incY == 1 && beta == 1 ==> (forall(i, 0, n, y[i] == old(y[i])))
+//@ ensures [real] alpha == 0 && incY == 1 && beta == 0 ==> (forall(i, 0, n, y[i] == 0))
+//@ ensures [real] alpha == 0 && incY == 1 && beta != 0 && beta != 1 ==> (forall(i, 0, n, y[i] == old(y[i])*beta))
+//@ ensures [real] alpha != 0 && incX == 1 && G && ul == blas.Upper ==> (forall(i, 0, n, y[i] == old(y[i])*beta + symu(a, x, alpha, i, n, n, lda)))
+//@ ensures [realx] alpha != 0 && incX == 1 && G && ul == blas.Lower ==> (forall(i, 0, n, y[i] == old(y[i])*beta + syml(a, x, alpha, i, n, lda)))
+// (the loop invariants speak about the values at loop entry, atloop: y scaled by beta in the outer loops; it is the
+// iteration count, equal to i in the outer loops; the rows are split at i-1 and i so that every proof step of an
+// outer loop concerns one case: rows finished earlier, the row finished in this iteration, the rows still open)
+//@ loop 1: invariant [real] forall(r, 0, it, y[r] == old(y[r])*beta)
+//@ invariant [real] forall(r, it, n, y[r] == old(y[r]))
+//@ loop 3: invariant [real] forall(r, 0, n, G && beta == 1 ==> atloop(y[r]) == old(y[r])*beta)
+//@ invariant [real] forall(r, 0, n, G && beta == 0 ==> atloop(y[r]) == old(y[r])*beta)
+//@ invariant [real] forall(r, 0, n, G && beta != 0 && beta != 1 ==> atloop(y[r]) == old(y[r])*beta)
+//@ invariant [real] forall(r, 0, i-1, G ==> y[r] == atloop(y[r]) + symu(a, x, alpha, r, it, n, lda))
+//@ invariant [real] forall(r, 0, n, G && r == i-1 ==> y[r] == atloop(y[r]) + symu(a, x, alpha, r, it, n, lda))
+//@ invariant [real] forall(r, i, n, G ==> y[r] == atloop(y[r]) + symu(a, x, alpha, r, it, n, lda))
+//@ loop 4: invariant [real] G ==> sum == atloop(x[i]*a[i*lda+i] + f64.dotp(x, a, it, i+1, 1, i*lda+i+1, 1))
+//@ invariant [real] forall(r, 0, i+1, G ==> y[r] == atloop(y[r]))
+//@ invariant [real] forall(r, i+1, i+it, G ==> y[r] == atloop(y[r]) + (alpha*x[i])*a[i*lda+r])
+//@ invariant [real] forall(r, 0, n, G && it >= 1 && r == i+it ==> y[r] == atloop(y[r]) + (alpha*x[i])*a[i*lda+r])
+//@ invariant [real] forall(r, i+1+it, n, G ==> y[r] == atloop(y[r]))
+//@ loop 7: invariant [realx] forall(r, 0, n, G && beta == 1 ==> atloop(y[r]) == old(y[r])*beta)
+//@ invariant [realx] forall(r, 0, n, G && beta == 0 ==> atloop(y[r]) == old(y[r])*beta)
+//@ invariant [realx] forall(r, 0, n, G && beta != 0 && beta != 1 ==> atloop(y[r]) == old(y[r])*beta)
+//@ invariant [realx] forall(r, 0, i-1, G ==> y[r] == atloop(y[r]) + syml(a, x, alpha, r, it, lda))
+//@ invariant [realx] forall(r, 0, n, G && r == i-1 ==> y[r] == atloop(y[r]) + syml(a, x, alpha, r, it, lda))
+//@ invariant [realx] forall(r, i, n, G ==> y[r] == atloop(y[r]) + syml(a, x, alpha, r, it, lda))
+//@ loop 8: invariant [realx] G ==> sum == atloop(f64.dotp(x, a, it, 0, 1, i*lda, 1))
+//@ invariant [realx] forall(r, 0, it-1, G ==> y[r] == atloop(y[r]) + (alpha*x[i])*a[i*lda+r])
+//@ invariant [realx] forall(r, 0, n, G && r == it-1 ==> y[r] == atloop(y[r]) + (alpha*x[i])*a[i*lda+r])
+//@ invariant [realx] forall(r, it, n, G ==> y[r] == atloop(y[r]))
 
 //@ func Implementation.Dsbmv Implementation.Ssbmv props: C01(frame) C07(safety)
 //@ valid flagUL(ul) && n >= 0 && k >= 0 && lda >= k+1 && incX != 0 && incY != 0 &&
@@ -357,7 +411,8 @@ package gonum
 //@ reads x[start(n,incX)+k*incX] for k in 0..n ; y[start(n,incY)+k*incY] for k in 0..n
 
 // Dsyr2: in exact arithmetic every element of the referenced triangle gets alpha*x[i]*y[j] + alpha*y[i]*x[j]
-// added (the other triangle is outside the write frame); operands in distinct allocations.
+// added (the other triangle is outside the write frame); operands in distinct allocations. Decided in the thorough
+// tier ([realx]): the proof takes about a minute of solver time.
 //@ func Implementation.Dsyr2 props: C01 C07(safety)
 //@ valid flagUL(ul) && n >= 0 && lda >= max(1, n) && incX != 0 && incY != 0 &&
 //@       (n == 0 || (vec(x, n, incX) && vec(y, n, incY) && ge(a, n, n, lda)))
@@ -366,60 +421,60 @@ package gonum
 //@ reads x[start(n,incX)+k*incX] for k in 0..n ; y[start(n,incY)+k*incY] for k in 0..n
 //@ let sx = start(n,incX)
 //@ let sy = start(n,incY)
-//@ ensures [real] a.rid != x.rid && a.rid != y.rid && ul == blas.Upper ==> (forall(i, 0, n, forall(j, i, n, a[i*lda+j] == old(a[i*lda+j]) + alpha*old(x[sx+i*incX])*old(y[sy+j*incY]) + alpha*old(y[sy+i*incY])*old(x[sx+j*incX]))))
-//@ ensures [real] a.rid != x.rid && a.rid != y.rid && ul == blas.Lower ==> (forall(i, 0, n, forall(j, 0, i+1, a[i*lda+j] == old(a[i*lda+j]) + alpha*old(x[sx+i*incX])*old(y[sy+j*incY]) + alpha*old(y[sy+i*incY])*old(x[sx+j*incX]))))
-//@ loop 1: invariant [real] forall(r, 0, i, forall(c, r, n, a.rid != x.rid && a.rid != y.rid ==> a[(r)*lda+c] == old(a[(r)*lda+c]) + alpha*old(x[sx+(r)*incX])*old(y[sy+(c)*incY]) + alpha*old(y[sy+(r)*incY])*old(x[sx+(c)*incX])))
-//@ invariant [real] forall(r, i, n, forall(c, r, n, a.rid != x.rid && a.rid != y.rid ==> a[(r)*lda+c] == old(a[(r)*lda+c])))
-//@ invariant [real] forall(k, 0, n, a.rid != x.rid && a.rid != y.rid ==> x[sx+k*incX] == old(x[sx+(k)*incX]))
-//@ invariant [real] forall(k, 0, n, a.rid != x.rid && a.rid != y.rid ==> y[sy+k*incY] == old(y[sy+(k)*incY]))
-//@ loop 2: invariant [real] forall(r, 0, i, forall(c, r, n, a.rid != x.rid && a.rid != y.rid ==> a[(r)*lda+c] == old(a[(r)*lda+c]) + alpha*old(x[sx+(r)*incX])*old(y[sy+(c)*incY]) + alpha*old(y[sy+(r)*incY])*old(x[sx+(c)*incX])))
-//@ invariant [real] forall(r, i+1, n, forall(c, r, n, a.rid != x.rid && a.rid != y.rid ==> a[(r)*lda+c] == old(a[(r)*lda+c])))
-//@ invariant [real] forall(r, i, i+1, forall(c, r, j, a.rid != x.rid && a.rid != y.rid ==> a[(r)*lda+c] == old(a[(r)*lda+c]) + alpha*old(x[sx+(r)*incX])*old(y[sy+(c)*incY]) + alpha*old(y[sy+(r)*incY])*old(x[sx+(c)*incX])))
-//@ invariant [real] forall(r, i, i+1, forall(c, j, n, a.rid != x.rid && a.rid != y.rid ==> a[(r)*lda+c] == old(a[(r)*lda+c])))
-//@ invariant [real] forall(k, 0, n, a.rid != x.rid && a.rid != y.rid ==> x[sx+k*incX] == old(x[sx+(k)*incX]))
-//@ invariant [real] forall(k, 0, n, a.rid != x.rid && a.rid != y.rid ==> y[sy+k*incY] == old(y[sy+(k)*incY]))
-//@ loop 3: invariant [real] ix == sx + i*incX
-//@ invariant [real] iy == sy + i*incY
-//@ invariant [real] forall(r, 0, i, forall(c, r, n, a.rid != x.rid && a.rid != y.rid ==> a[(r)*lda+c] == old(a[(r)*lda+c]) + alpha*old(x[sx+(r)*incX])*old(y[sy+(c)*incY]) + alpha*old(y[sy+(r)*incY])*old(x[sx+(c)*incX])))
-//@ invariant [real] forall(r, i, n, forall(c, r, n, a.rid != x.rid && a.rid != y.rid ==> a[(r)*lda+c] == old(a[(r)*lda+c])))
-//@ invariant [real] forall(k, 0, n, a.rid != x.rid && a.rid != y.rid ==> x[sx+k*incX] == old(x[sx+(k)*incX]))
-//@ invariant [real] forall(k, 0, n, a.rid != x.rid && a.rid != y.rid ==> y[sy+k*incY] == old(y[sy+(k)*incY]))
-//@ loop 4: invariant [real] ix == sx + i*incX
-//@ invariant [real] iy == sy + i*incY
-//@ invariant [real] jx == sx + j*incX
-//@ invariant [real] jy == sy + j*incY
-//@ invariant [real] forall(r, 0, i, forall(c, r, n, a.rid != x.rid && a.rid != y.rid ==> a[(r)*lda+c] == old(a[(r)*lda+c]) + alpha*old(x[sx+(r)*incX])*old(y[sy+(c)*incY]) + alpha*old(y[sy+(r)*incY])*old(x[sx+(c)*incX])))
-//@ invariant [real] forall(r, i+1, n, forall(c, r, n, a.rid != x.rid && a.rid != y.rid ==> a[(r)*lda+c] == old(a[(r)*lda+c])))
-//@ invariant [real] forall(r, i, i+1, forall(c, r, j, a.rid != x.rid && a.rid != y.rid ==> a[(r)*lda+c] == old(a[(r)*lda+c]) + alpha*old(x[sx+(r)*incX])*old(y[sy+(c)*incY]) + alpha*old(y[sy+(r)*incY])*old(x[sx+(c)*incX])))
-//@ invariant [real] forall(r, i, i+1, forall(c, j, n, a.rid != x.rid && a.rid != y.rid ==> a[(r)*lda+c] == old(a[(r)*lda+c])))
-//@ invariant [real] forall(k, 0, n, a.rid != x.rid && a.rid != y.rid ==> x[sx+k*incX] == old(x[sx+(k)*incX]))
-//@ invariant [real] forall(k, 0, n, a.rid != x.rid && a.rid != y.rid ==> y[sy+k*incY] == old(y[sy+(k)*incY]))
-//@ loop 5: invariant [real] forall(r, 0, i, forall(c, 0, r+1, a.rid != x.rid && a.rid != y.rid ==> a[(r)*lda+c] == old(a[(r)*lda+c]) + alpha*old(x[sx+(r)*incX])*old(y[sy+(c)*incY]) + alpha*old(y[sy+(r)*incY])*old(x[sx+(c)*incX])))
-//@ invariant [real] forall(r, i, n, forall(c, 0, r+1, a.rid != x.rid && a.rid != y.rid ==> a[(r)*lda+c] == old(a[(r)*lda+c])))
-//@ invariant [real] forall(k, 0, n, a.rid != x.rid && a.rid != y.rid ==> x[sx+k*incX] == old(x[sx+(k)*incX]))
-//@ invariant [real] forall(k, 0, n, a.rid != x.rid && a.rid != y.rid ==> y[sy+k*incY] == old(y[sy+(k)*incY]))
-//@ loop 6: invariant [real] forall(r, 0, i, forall(c, 0, r+1, a.rid != x.rid && a.rid != y.rid ==> a[(r)*lda+c] == old(a[(r)*lda+c]) + alpha*old(x[sx+(r)*incX])*old(y[sy+(c)*incY]) + alpha*old(y[sy+(r)*incY])*old(x[sx+(c)*incX])))
-//@ invariant [real] forall(r, i+1, n, forall(c, 0, r+1, a.rid != x.rid && a.rid != y.rid ==> a[(r)*lda+c] == old(a[(r)*lda+c])))
-//@ invariant [real] forall(r, i, i+1, forall(c, 0, j, a.rid != x.rid && a.rid != y.rid ==> a[(r)*lda+c] == old(a[(r)*lda+c]) + alpha*old(x[sx+(r)*incX])*old(y[sy+(c)*incY]) + alpha*old(y[sy+(r)*incY])*old(x[sx+(c)*incX])))
-//@ invariant [real] forall(r, i, i+1, forall(c, j, r+1, a.rid != x.rid && a.rid != y.rid ==> a[(r)*lda+c] == old(a[(r)*lda+c])))
-//@ invariant [real] forall(k, 0, n, a.rid != x.rid && a.rid != y.rid ==> x[sx+k*incX] == old(x[sx+(k)*incX]))
-//@ invariant [real] forall(k, 0, n, a.rid != x.rid && a.rid != y.rid ==> y[sy+k*incY] == old(y[sy+(k)*incY]))
-//@ loop 7: invariant [real] ix == sx + i*incX
-//@ invariant [real] iy == sy + i*incY
-//@ invariant [real] forall(r, 0, i, forall(c, 0, r+1, a.rid != x.rid && a.rid != y.rid ==> a[(r)*lda+c] == old(a[(r)*lda+c]) + alpha*old(x[sx+(r)*incX])*old(y[sy+(c)*incY]) + alpha*old(y[sy+(r)*incY])*old(x[sx+(c)*incX])))
-//@ invariant [real] forall(r, i, n, forall(c, 0, r+1, a.rid != x.rid && a.rid != y.rid ==> a[(r)*lda+c] == old(a[(r)*lda+c])))
-//@ invariant [real] forall(k, 0, n, a.rid != x.rid && a.rid != y.rid ==> x[sx+k*incX] == old(x[sx+(k)*incX]))
-//@ invariant [real] forall(k, 0, n, a.rid != x.rid && a.rid != y.rid ==> y[sy+k*incY] == old(y[sy+(k)*incY]))
-//@ loop 8: invariant [real] ix == sx + i*incX
-//@ invariant [real] iy == sy + i*incY
-//@ invariant [real] jx == sx + j*incX
-//@ invariant [real] jy == sy + j*incY
-//@ invariant [real] forall(r, 0, i, forall(c, 0, r+1, a.rid != x.rid && a.rid != y.rid ==> a[(r)*lda+c] == old(a[(r)*lda+c]) + alpha*old(x[sx+(r)*incX])*old(y[sy+(c)*incY]) + alpha*old(y[sy+(r)*incY])*old(x[sx+(c)*incX])))
-//@ invariant [real] forall(r, i+1, n, forall(c, 0, r+1, a.rid != x.rid && a.rid != y.rid ==> a[(r)*lda+c] == old(a[(r)*lda+c])))
-//@ invariant [real] forall(r, i, i+1, forall(c, 0, j, a.rid != x.rid && a.rid != y.rid ==> a[(r)*lda+c] == old(a[(r)*lda+c]) + alpha*old(x[sx+(r)*incX])*old(y[sy+(c)*incY]) + alpha*old(y[sy+(r)*incY])*old(x[sx+(c)*incX])))
-//@ invariant [real] forall(r, i, i+1, forall(c, j, r+1, a.rid != x.rid && a.rid != y.rid ==> a[(r)*lda+c] == old(a[(r)*lda+c])))
-//@ invariant [real] forall(k, 0, n, a.rid != x.rid && a.rid != y.rid ==> x[sx+k*incX] == old(x[sx+(k)*incX]))
-//@ invariant [real] forall(k, 0, n, a.rid != x.rid && a.rid != y.rid ==> y[sy+k*incY] == old(y[sy+(k)*incY]))
+//@ ensures [realx] a.rid != x.rid && a.rid != y.rid && ul == blas.Upper ==> (forall(i, 0, n, forall(j, i, n, a[i*lda+j] == old(a[i*lda+j]) + alpha*old(x[sx+i*incX])*old(y[sy+j*incY]) + alpha*old(y[sy+i*incY])*old(x[sx+j*incX]))))
+//@ ensures [realx] a.rid != x.rid && a.rid != y.rid && ul == blas.Lower ==> (forall(i, 0, n, forall(j, 0, i+1, a[i*lda+j] == old(a[i*lda+j]) + alpha*old(x[sx+i*incX])*old(y[sy+j*incY]) + alpha*old(y[sy+i*incY])*old(x[sx+j*incX]))))
+//@ loop 1: invariant [realx] forall(r, 0, i, forall(c, r, n, a.rid != x.rid && a.rid != y.rid ==> a[(r)*lda+c] == old(a[(r)*lda+c]) + alpha*old(x[sx+(r)*incX])*old(y[sy+(c)*incY]) + alpha*old(y[sy+(r)*incY])*old(x[sx+(c)*incX])))
+//@ invariant [realx] forall(r, i, n, forall(c, r, n, a.rid != x.rid && a.rid != y.rid ==> a[(r)*lda+c] == old(a[(r)*lda+c])))
+//@ invariant [realx] forall(k, 0, n, a.rid != x.rid && a.rid != y.rid ==> x[sx+k*incX] == old(x[sx+(k)*incX]))
+//@ invariant [realx] forall(k, 0, n, a.rid != x.rid && a.rid != y.rid ==> y[sy+k*incY] == old(y[sy+(k)*incY]))
+//@ loop 2: invariant [realx] forall(r, 0, i, forall(c, r, n, a.rid != x.rid && a.rid != y.rid ==> a[(r)*lda+c] == old(a[(r)*lda+c]) + alpha*old(x[sx+(r)*incX])*old(y[sy+(c)*incY]) + alpha*old(y[sy+(r)*incY])*old(x[sx+(c)*incX])))
+//@ invariant [realx] forall(r, i+1, n, forall(c, r, n, a.rid != x.rid && a.rid != y.rid ==> a[(r)*lda+c] == old(a[(r)*lda+c])))
+//@ invariant [realx] forall(r, i, i+1, forall(c, r, j, a.rid != x.rid && a.rid != y.rid ==> a[(r)*lda+c] == old(a[(r)*lda+c]) + alpha*old(x[sx+(r)*incX])*old(y[sy+(c)*incY]) + alpha*old(y[sy+(r)*incY])*old(x[sx+(c)*incX])))
+//@ invariant [realx] forall(r, i, i+1, forall(c, j, n, a.rid != x.rid && a.rid != y.rid ==> a[(r)*lda+c] == old(a[(r)*lda+c])))
+//@ invariant [realx] forall(k, 0, n, a.rid != x.rid && a.rid != y.rid ==> x[sx+k*incX] == old(x[sx+(k)*incX]))
+//@ invariant [realx] forall(k, 0, n, a.rid != x.rid && a.rid != y.rid ==> y[sy+k*incY] == old(y[sy+(k)*incY]))
+//@ loop 3: invariant [realx] ix == sx + i*incX
+//@ invariant [realx] iy == sy + i*incY
+//@ invariant [realx] forall(r, 0, i, forall(c, r, n, a.rid != x.rid && a.rid != y.rid ==> a[(r)*lda+c] == old(a[(r)*lda+c]) + alpha*old(x[sx+(r)*incX])*old(y[sy+(c)*incY]) + alpha*old(y[sy+(r)*incY])*old(x[sx+(c)*incX])))
+//@ invariant [realx] forall(r, i, n, forall(c, r, n, a.rid != x.rid && a.rid != y.rid ==> a[(r)*lda+c] == old(a[(r)*lda+c])))
+//@ invariant [realx] forall(k, 0, n, a.rid != x.rid && a.rid != y.rid ==> x[sx+k*incX] == old(x[sx+(k)*incX]))
+//@ invariant [realx] forall(k, 0, n, a.rid != x.rid && a.rid != y.rid ==> y[sy+k*incY] == old(y[sy+(k)*incY]))
+//@ loop 4: invariant [realx] ix == sx + i*incX
+//@ invariant [realx] iy == sy + i*incY
+//@ invariant [realx] jx == sx + j*incX
+//@ invariant [realx] jy == sy + j*incY
+//@ invariant [realx] forall(r, 0, i, forall(c, r, n, a.rid != x.rid && a.rid != y.rid ==> a[(r)*lda+c] == old(a[(r)*lda+c]) + alpha*old(x[sx+(r)*incX])*old(y[sy+(c)*incY]) + alpha*old(y[sy+(r)*incY])*old(x[sx+(c)*incX])))
+//@ invariant [realx] forall(r, i+1, n, forall(c, r, n, a.rid != x.rid && a.rid != y.rid ==> a[(r)*lda+c] == old(a[(r)*lda+c])))
+//@ invariant [realx] forall(r, i, i+1, forall(c, r, j, a.rid != x.rid && a.rid != y.rid ==> a[(r)*lda+c] == old(a[(r)*lda+c]) + alpha*old(x[sx+(r)*incX])*old(y[sy+(c)*incY]) + alpha*old(y[sy+(r)*incY])*old(x[sx+(c)*incX])))
+//@ invariant [realx] forall(r, i, i+1, forall(c, j, n, a.rid != x.rid && a.rid != y.rid ==> a[(r)*lda+c] == old(a[(r)*lda+c])))
+//@ invariant [realx] forall(k, 0, n, a.rid != x.rid && a.rid != y.rid ==> x[sx+k*incX] == old(x[sx+(k)*incX]))
+//@ invariant [realx] forall(k, 0, n, a.rid != x.rid && a.rid != y.rid ==> y[sy+k*incY] == old(y[sy+(k)*incY]))
+//@ loop 5: invariant [realx] forall(r, 0, i, forall(c, 0, r+1, a.rid != x.rid && a.rid != y.rid ==> a[(r)*lda+c] == old(a[(r)*lda+c]) + alpha*old(x[sx+(r)*incX])*old(y[sy+(c)*incY]) + alpha*old(y[sy+(r)*incY])*old(x[sx+(c)*incX])))
+//@ invariant [realx] forall(r, i, n, forall(c, 0, r+1, a.rid != x.rid && a.rid != y.rid ==> a[(r)*lda+c] == old(a[(r)*lda+c])))
+//@ invariant [realx] forall(k, 0, n, a.rid != x.rid && a.rid != y.rid ==> x[sx+k*incX] == old(x[sx+(k)*incX]))
+//@ invariant [realx] forall(k, 0, n, a.rid != x.rid && a.rid != y.rid ==> y[sy+k*incY] == old(y[sy+(k)*incY]))
+//@ loop 6: invariant [realx] forall(r, 0, i, forall(c, 0, r+1, a.rid != x.rid && a.rid != y.rid ==> a[(r)*lda+c] == old(a[(r)*lda+c]) + alpha*old(x[sx+(r)*incX])*old(y[sy+(c)*incY]) + alpha*old(y[sy+(r)*incY])*old(x[sx+(c)*incX])))
+//@ invariant [realx] forall(r, i+1, n, forall(c, 0, r+1, a.rid != x.rid && a.rid != y.rid ==> a[(r)*lda+c] == old(a[(r)*lda+c])))
+//@ invariant [realx] forall(r, i, i+1, forall(c, 0, j, a.rid != x.rid && a.rid != y.rid ==> a[(r)*lda+c] == old(a[(r)*lda+c]) + alpha*old(x[sx+(r)*incX])*old(y[sy+(c)*incY]) + alpha*old(y[sy+(r)*incY])*old(x[sx+(c)*incX])))
+//@ invariant [realx] forall(r, i, i+1, forall(c, j, r+1, a.rid != x.rid && a.rid != y.rid ==> a[(r)*lda+c] == old(a[(r)*lda+c])))
+//@ invariant [realx] forall(k, 0, n, a.rid != x.rid && a.rid != y.rid ==> x[sx+k*incX] == old(x[sx+(k)*incX]))
+//@ invariant [realx] forall(k, 0, n, a.rid != x.rid && a.rid != y.rid ==> y[sy+k*incY] == old(y[sy+(k)*incY]))
+//@ loop 7: invariant [realx] ix == sx + i*incX
+//@ invariant [realx] iy == sy + i*incY
+//@ invariant [realx] forall(r, 0, i, forall(c, 0, r+1, a.rid != x.rid && a.rid != y.rid ==> a[(r)*lda+c] == old(a[(r)*lda+c]) + alpha*old(x[sx+(r)*incX])*old(y[sy+(c)*incY]) + alpha*old(y[sy+(r)*incY])*old(x[sx+(c)*incX])))
+//@ invariant [realx] forall(r, i, n, forall(c, 0, r+1, a.rid != x.rid && a.rid != y.rid ==> a[(r)*lda+c] == old(a[(r)*lda+c])))
+//@ invariant [realx] forall(k, 0, n, a.rid != x.rid && a.rid != y.rid ==> x[sx+k*incX] == old(x[sx+(k)*incX]))
+//@ invariant [realx] forall(k, 0, n, a.rid != x.rid && a.rid != y.rid ==> y[sy+k*incY] == old(y[sy+(k)*incY]))
+//@ loop 8: invariant [realx] ix == sx + i*incX
+//@ invariant [realx] iy == sy + i*incY
+//@ invariant [realx] jx == sx + j*incX
+//@ invariant [realx] jy == sy + j*incY
+//@ invariant [realx] forall(r, 0, i, forall(c, 0, r+1, a.rid != x.rid && a.rid != y.rid ==> a[(r)*lda+c] == old(a[(r)*lda+c]) + alpha*old(x[sx+(r)*incX])*old(y[sy+(c)*incY]) + alpha*old(y[sy+(r)*incY])*old(x[sx+(c)*incX])))
+//@ invariant [realx] forall(r, i+1, n, forall(c, 0, r+1, a.rid != x.rid && a.rid != y.rid ==> a[(r)*lda+c] == old(a[(r)*lda+c])))
+//@ invariant [realx] forall(r, i, i+1, forall(c, 0, j, a.rid != x.rid && a.rid != y.rid ==> a[(r)*lda+c] == old(a[(r)*lda+c]) + alpha*old(x[sx+(r)*incX])*old(y[sy+(c)*incY]) + alpha*old(y[sy+(r)*incY])*old(x[sx+(c)*incX])))
+//@ invariant [realx] forall(r, i, i+1, forall(c, j, r+1, a.rid != x.rid && a.rid != y.rid ==> a[(r)*lda+c] == old(a[(r)*lda+c])))
+//@ invariant [realx] forall(k, 0, n, a.rid != x.rid && a.rid != y.rid ==> x[sx+k*incX] == old(x[sx+(k)*incX]))
+//@ invariant [realx] forall(k, 0, n, a.rid != x.rid && a.rid != y.rid ==> y[sy+k*incY] == old(y[sy+(k)*incY]))
 
 //@ func Implementation.Sspr props: C01(frame) C07(safety)
 //@ valid flagUL(ul) && n >= 0 && incX != 0 &&
@@ -477,6 +532,7 @@ package gonum
 // Dspr2: in exact arithmetic every element of the packed triangle gets alpha*x[i]*y[j] + alpha*y[i]*x[j]
 // added; ap, x, y in distinct allocations. Decided for the upper triangle with unit increments; the
 // invariants of the lower-triangle and strided loops are beyond the solvers' time limits and are not stated.
+// Decided in the thorough tier ([realx]): 25 to 45 s of proof time depending on the load of the machine.
 //@ func Implementation.Dspr2 props: C01 C07(safety)
 //@ valid flagUL(ul) && n >= 0 && incX != 0 && incY != 0 &&
 //@       (n == 0 || (vec(x, n, incX) && vec(y, n, incY) && len(ap) >= n*(n+1)/2))
@@ -485,18 +541,18 @@ package gonum
 //@ reads x[start(n,incX)+k*incX] for k in 0..n ; y[start(n,incY)+k*incY] for k in 0..n
 //@ let sx = start(n,incX)
 //@ let sy = start(n,incY)
-//@ ensures [real] incX == 1 && incY == 1 && ap.rid != x.rid && ap.rid != y.rid && ul == blas.Upper ==> (forall(i, 0, n, forall(j, i, n, ap[pkU(i,j,n)] == old(ap[pkU(i,j,n)]) + alpha*old(x[sx+i*incX])*old(y[sy+j*incY]) + alpha*old(y[sy+i*incY])*old(x[sx+j*incX]))))
-//@ loop 1: invariant [real] 2*offset == i*(2*n-i+1)
-//@ invariant [real] forall(r, 0, i, pkU(r,n,n) <= offset)
-//@ invariant [real] forall(r, 0, i, forall(c, r, n, ap.rid != x.rid && ap.rid != y.rid ==> ap[pkU(r,c,n)] == old(ap[pkU(r,c,n)]) + alpha*old(x[sx+(r)*incX])*old(y[sy+(c)*incY]) + alpha*old(y[sy+(r)*incY])*old(x[sx+(c)*incX])))
-//@ invariant [real] forall(q, offset, n*(n+1)/2, ap.rid != x.rid && ap.rid != y.rid ==> ap[q] == old(ap[q]))
-//@ invariant [real] forall(k, 0, n, ap.rid != x.rid && ap.rid != y.rid ==> x[sx+k*incX] == old(x[sx+(k)*incX]))
-//@ invariant [real] forall(k, 0, n, ap.rid != x.rid && ap.rid != y.rid ==> y[sy+k*incY] == old(y[sy+(k)*incY]))
-//@ loop 2: invariant [real] forall(r, 0, i, forall(c, r, n, ap.rid != x.rid && ap.rid != y.rid ==> ap[pkU(r,c,n)] == old(ap[pkU(r,c,n)]) + alpha*old(x[sx+(r)*incX])*old(y[sy+(c)*incY]) + alpha*old(y[sy+(r)*incY])*old(x[sx+(c)*incX])))
-//@ invariant [real] forall(r, i, i+1, forall(c, r, r+it, ap.rid != x.rid && ap.rid != y.rid ==> ap[pkU(r,c,n)] == old(ap[pkU(r,c,n)]) + alpha*old(x[sx+(r)*incX])*old(y[sy+(c)*incY]) + alpha*old(y[sy+(r)*incY])*old(x[sx+(c)*incX])))
-//@ invariant [real] forall(q, offset+it, n*(n+1)/2, ap.rid != x.rid && ap.rid != y.rid ==> ap[q] == old(ap[q]))
-//@ invariant [real] forall(k, 0, n, ap.rid != x.rid && ap.rid != y.rid ==> x[sx+k*incX] == old(x[sx+(k)*incX]))
-//@ invariant [real] forall(k, 0, n, ap.rid != x.rid && ap.rid != y.rid ==> y[sy+k*incY] == old(y[sy+(k)*incY]))
+//@ ensures [realx] incX == 1 && incY == 1 && ap.rid != x.rid && ap.rid != y.rid && ul == blas.Upper ==> (forall(i, 0, n, forall(j, i, n, ap[pkU(i,j,n)] == old(ap[pkU(i,j,n)]) + alpha*old(x[sx+i*incX])*old(y[sy+j*incY]) + alpha*old(y[sy+i*incY])*old(x[sx+j*incX]))))
+//@ loop 1: invariant [realx] 2*offset == i*(2*n-i+1)
+//@ invariant [realx] forall(r, 0, i, pkU(r,n,n) <= offset)
+//@ invariant [realx] forall(r, 0, i, forall(c, r, n, ap.rid != x.rid && ap.rid != y.rid ==> ap[pkU(r,c,n)] == old(ap[pkU(r,c,n)]) + alpha*old(x[sx+(r)*incX])*old(y[sy+(c)*incY]) + alpha*old(y[sy+(r)*incY])*old(x[sx+(c)*incX])))
+//@ invariant [realx] forall(q, offset, n*(n+1)/2, ap.rid != x.rid && ap.rid != y.rid ==> ap[q] == old(ap[q]))
+//@ invariant [realx] forall(k, 0, n, ap.rid != x.rid && ap.rid != y.rid ==> x[sx+k*incX] == old(x[sx+(k)*incX]))
+//@ invariant [realx] forall(k, 0, n, ap.rid != x.rid && ap.rid != y.rid ==> y[sy+k*incY] == old(y[sy+(k)*incY]))
+//@ loop 2: invariant [realx] forall(r, 0, i, forall(c, r, n, ap.rid != x.rid && ap.rid != y.rid ==> ap[pkU(r,c,n)] == old(ap[pkU(r,c,n)]) + alpha*old(x[sx+(r)*incX])*old(y[sy+(c)*incY]) + alpha*old(y[sy+(r)*incY])*old(x[sx+(c)*incX])))
+//@ invariant [realx] forall(r, i, i+1, forall(c, r, r+it, ap.rid != x.rid && ap.rid != y.rid ==> ap[pkU(r,c,n)] == old(ap[pkU(r,c,n)]) + alpha*old(x[sx+(r)*incX])*old(y[sy+(c)*incY]) + alpha*old(y[sy+(r)*incY])*old(x[sx+(c)*incX])))
+//@ invariant [realx] forall(q, offset+it, n*(n+1)/2, ap.rid != x.rid && ap.rid != y.rid ==> ap[q] == old(ap[q]))
+//@ invariant [realx] forall(k, 0, n, ap.rid != x.rid && ap.rid != y.rid ==> x[sx+k*incX] == old(x[sx+(k)*incX]))
+//@ invariant [realx] forall(k, 0, n, ap.rid != x.rid && ap.rid != y.rid ==> y[sy+k*incY] == old(y[sy+(k)*incY]))
 
 // ---- Level 3 ------------------------------------------------------------------
 
